@@ -8,6 +8,10 @@ from mirq import (MirJob, SymExec, Stats, find_fn, call_blocks, stmt_blocks, fp_
 from vrun import Inconclusive
 
 
+def _native(test, path, body):
+    return {"test": test, "files": {path: "\n#[cfg(test)]\nmod %s_mod {\n    use super::*;\n    #[test]\n    fn %s() {\n%s\n    }\n}\n" % (test, test, body)}}
+
+
 # --------------------------------------------------------------------------
 # E3: size-producing closures
 # --------------------------------------------------------------------------
@@ -326,6 +330,20 @@ def gcc_call_model(se, path, t, args):
 GCC_PREFIX = "0x00, 0x05, 0x00, 0x14, 0x7c, 0x00, 0x01, 0x2a, 0x14, 0x76, 0x0a, 0x01, 0x01, 0x00, 0x01, 0xc0, 0x00, b'M', b'c', b'D', b'n'"
 
 
+FASTPATH_NATIVE = _native("verif_replay_fast_path_degenerate", "src/core/global.rs", """
+        // fast-path bitmap updates with degenerate rectangles (all zero; 1 pixel at 4 bpp; raw and compressed flag)
+        for (w, bpp, flags) in [(0u8, 0u8, 0u8), (1, 4, 0), (0, 32, 0), (1, 0, 1), (0, 0, 1)].iter() {
+            let mut rect = vec![0u8; 18];
+            rect[8] = *w; rect[12] = *bpp; rect[14] = *flags;
+            let mut data = vec![1u8, 0, 1, 0];
+            data.extend_from_slice(&rect);
+            let mut pdu = vec![0x01u8, data.len() as u8, 0];
+            pdu.extend_from_slice(&data);
+            let mut c = Client::new(1007, 1003, 800, 600, KeyboardLayout::US, "x");
+            let _ = c.read_fast_path(&mut Cursor::new(pdu), |_e| {});
+        }""")
+
+
 def gcc_native(mdl):
     return {"test": "verif_replay_gcc_block_len", "files": {"src/core/gcc.rs": """
 #[cfg(test)]
@@ -381,9 +399,14 @@ mod verif_replay2 {
     use super::*;
     #[test]
     fn verif_replay_gcc_no_blocks() {
-        let mut v = vec![%s, 0];
-        let r = read_conference_create_response(&mut Cursor::new(&mut v[..]));
-        assert!(r.is_err());
+        // no block / only SC_NET / only SC_CORE: always an error, never a panic
+        let tails: Vec<Vec<u8>> = vec![vec![0], vec![8, 0x03, 0x0c, 8, 0, 0xeb, 0x03, 0, 0], vec![8, 0x01, 0x0c, 8, 0, 4, 0, 8, 0]];
+        for t in tails {
+            let mut v = vec![%s];
+            v.extend_from_slice(&t);
+            let r = read_conference_create_response(&mut Cursor::new(&mut v[..]));
+            assert!(r.is_err());
+        }
     }
 }""" % GCC_PREFIX}}
 
@@ -763,14 +786,44 @@ def _state_stores(p):
     return out
 
 
+def _state_switch(f):
+    for n in f.order:
+        b = f.blocks[n]
+        if b.cleanup or not b.t or b.t["kind"] != "switch":
+            continue
+        if any(re.search(r"= discriminant\(\(\(\*_1\)\.\d+: core::global::ClientState\)\)", s) for s in b.stmts):
+            return n
+    return None
+
+
 def global_read(ctx, mir, stats):
     f = find_fn(mir, r"^global::<impl at src/core/global\.rs[^>]*>::read$")
-    se = SymExec(f, stats, max_paths=5000).run()
     obs = []
+    sw0 = _state_switch(f)
+    if sw0 is None:
+        raise Inconclusive("ENCODING-FAILED: the switch on self.state was not found in global::Client::read")
+    tg = dict(f.blocks[sw0].t["targets"])
+    # E2 first, independent of the arm analysis: which arm is Data (reaches read_data_pdu), and is the
+    # fast-path reader (only caller of the bitmap callback) reachable without going through that edge?
+    rdp = call_blocks(f, r"read_data_pdu")
+    fpb = call_blocks(f, r"read_fast_path")
+    data_labs = [l for l, t in tg.items() if l != "otherwise" and any(b in bfs_reach(f, t) for b in rdp)]
+    if len(rdp) != 1 or not fpb or len(data_labs) != 1:
+        raise Inconclusive("ENCODING-FAILED: read_data_pdu/read_fast_path calls or the Data arm not recognised (%s %s %s)" % (rdp, fpb, data_labs))
+    for b in fpb:
+        r = fp_reachable(f, f.order[0], b, stats, removed_edges={(sw0, data_labs[0], tg[data_labs[0]])})
+        obs.append({"id": "global::read:bitmaps-only-in-data[%s]" % b, "ok": not r, "functions": [f.name],
+                    "detail": "read_fast_path (the only caller of the bitmap callback) is reachable only through the Data arm of the state switch" if not r else "read_fast_path is reachable without the client being in the Data state (bitmap events outside the active window)", "where": "%s %s" % (f.name, b)})
+    # nothing that reads a PDU, writes or stores state happens before the state is examined
+    pre = bfs_reach(f, f.order[0], removed_nodes={sw0})
+    early = [f.blocks[n].t["func"] for n in pre if f.blocks[n].t and f.blocks[n].t["kind"] == "call" and re.search(r"global::Client::(read_|write_)", f.blocks[n].t["func"])]
+    obs.append({"id": "global::read:state-examined-first", "ok": not early, "functions": [f.name],
+                "detail": "no PDU reader or writer is reachable without passing the switch on self.state" if not early else "calls reachable before/without the state switch: %s" % early, "where": f.name})
+    se = SymExec(f, stats, max_paths=5000).run()
     arms = {}
     for p in se.finished:
-        first = next((ev for ev in p.events if ev[0] == "branch"), None)
-        if not first or "ClientState" not in first[4] and not re.search(r"_\d+", first[4]):
+        first = next((ev for ev in p.events if ev[0] == "branch" and ev[1] == sw0), None)
+        if not first:
             continue
         arms.setdefault(first[2], []).append(p)
     if len(arms) != 6:
@@ -841,16 +894,6 @@ def global_read(ctx, mir, stats):
     allk = sorted(k for ks in seen_kinds.values() for k in ks)
     obs.append({"id": "global::read:six-distinct-arms", "ok": allk == sorted(["demand", "sync", "coop", "granted", "font", "data"]), "functions": [f.name],
                 "detail": "state arms: %s" % {l: sorted(k) for l, k in seen_kinds.items()}, "where": f.name})
-    # fast path (the only route to the callback) only in the data arm: E2 reachability
-    fpb = call_blocks(f, r"read_fast_path")
-    sw0 = f.order[0]
-    data_lab = [l for l, ks in seen_kinds.items() if "data" in ks]
-    if len(fpb) != 1 or len(data_lab) != 1:
-        raise Inconclusive("ENCODING-FAILED: read_fast_path call / data arm not unique")
-    tg = dict(f.blocks[sw0].t["targets"])
-    r = fp_reachable(f, sw0, fpb[0], stats, removed_edges={(sw0, data_lab[0], tg[data_lab[0]])})
-    obs.append({"id": "global::read:bitmaps-only-in-data", "ok": not r, "functions": [f.name],
-                "detail": "read_fast_path (the only caller of the bitmap callback) is reachable only through the Data arm" if not r else "read_fast_path reachable outside the Data state", "where": f.name})
     ctx["c12_state_labels"] = seen_kinds
     return obs
 
@@ -1103,8 +1146,6 @@ def panic_sites(targets, natives=None):
     return fn
 
 
-def _native(test, path, body):
-    return {"test": test, "files": {path: "\n#[cfg(test)]\nmod %s_mod {\n    use super::*;\n    #[test]\n    fn %s() {\n%s\n    }\n}\n" % (test, test, body)}}
 
 
 NLA_NATIVES = {
@@ -1116,7 +1157,18 @@ NLA_NATIVES = {
         let mut a = base.clone(); a.extend_from_slice(&[4, 0, 4, 0, 48, 0, 0, 0,  0, 0, 0, 0]);
         let mut b = base.clone(); b.extend_from_slice(&[4, 0, 4, 0, 0xff, 0xff, 0xff, 0xff]);
         let mut c = base.clone(); c.extend_from_slice(&[4, 0, 4, 0, 1, 0, 0, 0]);
-        for m in [a, b, c].iter() {
+        // timestamp pair (AvId 7) of every length 0..=8 followed by EOL
+        let mut more: Vec<Vec<u8>> = Vec::new();
+        for l in 0u8..9 {
+            let mut d = base.clone();
+            let info_len = 4 + l + 4;
+            d.extend_from_slice(&[info_len, 0, info_len, 0, 48, 0, 0, 0]);
+            d.extend_from_slice(&[7, 0, l, 0]);
+            for _ in 0..l { d.push(0x11); }
+            d.extend_from_slice(&[0, 0, 0, 0]);
+            more.push(d);
+        }
+        for m in [a, b, c].iter().chain(more.iter()) {
             let mut n = Ntlm::new("".to_string(), "".to_string(), "".to_string());
             n.create_negotiate_message().unwrap();
             let _ = n.read_challenge_message(m);
@@ -1139,12 +1191,46 @@ NLA_NATIVES = {
         assert!(r.is_err());"""),
 }
 
+def core_data_units(ctx, mir, stats):
+    """client_core_data: whenever code units are appended to the client name, the total stays <= 15 (room for the terminator)."""
+    f = find_fn(mir, r"^client_core_data$")
+    se = SymExec(f, stats, loop_bound=1, max_paths=20000).run()
+    obs = []
+    for p in se.finished + [a[0] for a in se.asserts]:
+        for i, ev in calls_on(p.events, r"extend_from_slice$|Vec::<u16>::push$"):
+            ln = [e for k, e in calls_on(p.events[:i], r"Vec::<u16>::len$")]
+            un = [e for k, e in calls_on(p.events[:i], r"len_utf16$")]
+            if not ln or not un:
+                continue
+            L = None; N = None
+            for e in p.events[:i]:
+                if e[0] == "callret" and re.search(r"Vec::<u16>::len$", e[2]):
+                    L = e[3]
+                if e[0] == "callret" and re.search(r"len_utf16$", e[2]):
+                    N = e[3]
+            if L is None or N is None:
+                continue
+            verdict, mdl, smt = se.check(p, [z3.UGT(L + N, z3.BitVecVal(15, 64))], "client name units")
+            obs.append({"id": "client_core_data:name<=15-units", "ok": verdict == "unsat", "functions": [f.name],
+                        "detail": "code units are appended to clientName only while the total stays <= 15 (the 16th unit is the null terminator)" if verdict == "unsat" else
+                        "clientName can receive %s units: no room for the terminator" % mdl, "where": f.name, "path": p.trace, "needs_native": True,
+                        "native": None if verdict == "unsat" else CORE_DATA_NATIVE})
+    if not obs:
+        obs.append({"id": "client_core_data:name<=15-units", "ok": True, "functions": [f.name], "detail": "no unit-appending loop of the recognised form (not applicable)"})
+    return obs
+
+
 CORE_DATA_NATIVE = _native("verif_replay_core_data_name", "src/core/gcc.rs", """
         // 15 ASCII characters then a 2-byte character: byte 16 is not a char boundary
         let d = client_core_data(Some(ClientData { width: 800, height: 600, layout: KeyboardLayout::US, server_selected_protocol: 1, rdp_version: Version::RdpVersion5plus, name: "aaaaaaaaaaaaaaa\\u{e9}".to_string() }));
         assert_eq!(cast!(DataType::Slice, d["clientName"]).unwrap().len(), 32);
         let e = client_core_data(Some(ClientData { width: 800, height: 600, layout: KeyboardLayout::US, server_selected_protocol: 1, rdp_version: Version::RdpVersion5plus, name: "\\u{e9}".to_string() }));
-        assert_eq!(cast!(DataType::Slice, e["clientName"]).unwrap().len(), 32);""")
+        assert_eq!(cast!(DataType::Slice, e["clientName"]).unwrap().len(), 32);
+        // 14 ASCII characters then a non-BMP character (two UTF-16 units): the terminator must survive
+        let g = client_core_data(Some(ClientData { width: 800, height: 600, layout: KeyboardLayout::US, server_selected_protocol: 1, rdp_version: Version::RdpVersion5plus, name: "aaaaaaaaaaaaaa\\u{1F600}".to_string() }));
+        let n = cast!(DataType::Slice, g["clientName"]).unwrap();
+        assert_eq!(n.len(), 32);
+        assert_eq!((n[30], n[31]), (0, 0));""")
 
 NLA_TARGETS = [
     (r"^read_ts_server_challenge$", []),
